@@ -71,6 +71,14 @@ func runC14(c *core.Ctx) {
 			pb = &b
 			period = []string{"-b", b.Format(layout)}
 		}
+		if r.Intn(3) == 0 {
+			// an upper bound too; the days of a log come in any order, so a day after the bound says nothing about
+			// the days that follow it in the file
+			e := w.Log[r.Intn(len(w.Log))].Date
+			pe = &e
+			period = append(period, "-e", e.Format(layout))
+			c.Count("print_with_an_upper_bound", 1)
+		}
 		srv.Write(files)
 		c.Count("date_format_via_"+via, 1)
 		sel := restrict(w.Log, pb, pe)
@@ -105,6 +113,23 @@ func runC14(c *core.Ctx) {
 			}
 			stray = true
 			c.Count("print_with_an_empty_date_format", 1)
+		}
+		if i%6 == 4 && !stray {
+			// a date format that reaches the program padded with white space (a quoted flag value, a line of a CRLF
+			// .env file): the command may refuse to read the log under it; if it prints, what it prints reads back
+			padded := []string{" " + layout, "\t" + layout, layout + "\r", "  " + layout + " ", layout + "\u00a0"}[r.Intn(5)]
+			env = map[string]string{}
+			if r.Intn(2) == 0 {
+				env["HR_DATE_FORMAT"] = padded
+				base = []string{"--no-color"}
+			} else {
+				base = []string{"--no-color", "--date-format", padded}
+			}
+			args1 = append(append(append([]string{}, base...), "-l", "log.yaml"), "print")
+			pb, pe = nil, nil
+			sel = w.Log
+			stray = true
+			c.Count("print_with_a_padded_date_format", 1)
 		}
 		p1 := srv.App1(args1, env)
 		c.Eval(1)
